@@ -27,13 +27,15 @@ def main():
         return 0
     # fixed work per job; server-world cases cost 5-45 ms each under ASan (13 sockets, settle loops),
     # connection and pure cases well under 1 ms
-    slow = {'C10': 4000, 'C18': 4000, 'C09': 8000, 'C07': 12000, 'C08': 10000}
+    slow = {'C10': 3000, 'C18': 1500, 'C09': 8000, 'C07': 12000, 'C08': 10000}
+    # (a C18 'kill' case replays its history once per kill position: evolved inputs cost ~250 ms)
+    slow_sub = {('C18', 'kill'): 1000}
     def runs_for(sub):
         if 'MHV_FUZZ_RUNS_ANY' in os.environ:
             return int(os.environ['MHV_FUZZ_RUNS_ANY'])
         if sub == 'server':
             return 8000
-        return slow.get(pid, 100000)
+        return slow_sub.get((pid, sub), slow.get(pid, 100000))
     env = dict(os.environ, CARGO_NET_OFFLINE='true')
     t0 = time.time()
     b = subprocess.run('cargo +nightly fuzz build -O', shell=True, cwd=H, env=env, capture_output=True, text=True)
